@@ -188,63 +188,19 @@ def check(repo: Repo, rep: Report) -> None:
              (N("Grid", N("MultiDigit", 2, 5), 2, 0), [[], []], (4, 4), "Grid(height=2, width=0) value [[], []]")]
     judge("RT-GRID", "Grid zero-extent", cases)
     # ---- Rooms / ValuedRooms ------------------------------------------------------------------
-    for (h, wd) in BOARDS:
-        parts = connected_partitions(h, wd, 250)
-        bad = None
-        n = 0
-        try:
-            for rooms in parts:
-                orders = [rooms, [list(reversed(r)) for r in reversed(rooms)], [r for r in rooms[1:]] + [rooms[0]]]
-                for k, rs in enumerate(orders):
-                    n += 1
-                    env = w.env(h, wd)
-                    comb = N("Rooms")
-                    st, r = w.meth(comb, "serialize", env, [rs], 0)
-                    if st != "ok" or r is None:
-                        bad = f"board {h}x{wd} rooms {rs}: serialize gives {st} {r!r}"
-                        break
-                    text = r[1]
-                    st, d = w.meth(comb, "deserialize", env, text + "~", 0)
-                    if st != "ok" or d is None:
-                        bad = f"board {h}x{wd} rooms {rs} text {text!r}: deserialize gives {st} {d!r}"
-                        break
-                    if d[0] != len(text) or canon_rooms(d[1][0]) != canon_rooms(rs):
-                        bad = f"board {h}x{wd} rooms {rs} text {text!r}: decoded {d[1][0]} consuming {d[0]}/{len(text)}"
-                        break
-                    dec = d[1][0]
-                    if [sorted(x) for x in dec] != [list(x) for x in dec] or sorted(dec, key=lambda x: x[0]) != dec:
-                        bad = f"board {h}x{wd}: decoded rooms {dec} are not in canonical (row-major first cell) order"
-                        break
-                    # valued
-                    vals = [(-1 if i % 3 == 2 else (i * 37) % 300) for i in range(len(rs))]
-                    vc = N("ValuedRooms", N("OneOf", N("HexInt"), N("Spaces", -1, "g")))
-                    st, r = w.meth(vc, "serialize", env, [(rs, vals)], 0)
-                    if st != "ok" or r is None:
-                        bad = f"board {h}x{wd} valued rooms {rs} values {vals}: serialize gives {st} {r!r}"
-                        break
-                    text = r[1]
-                    st, d = w.meth(vc, "deserialize", env, text + "~", 0)
-                    if st != "ok" or d is None:
-                        bad = f"board {h}x{wd} valued rooms {rs} text {text!r}: deserialize gives {st} {d!r}"
-                        break
-                    drooms, dvals = d[1][0]
-                    want = {frozenset(map(tuple, room)): v for room, v in zip(rs, vals)}
-                    got = {frozenset(map(tuple, room)): v for room, v in zip(drooms, dvals)}
-                    if d[0] != len(text) or got != want:
-                        bad = (f"board {h}x{wd}: rooms {rs} with values {vals} come back as {list(zip(drooms, dvals))} "
-                               f"(text {text!r}, consumed {d[0]}/{len(text)}): values are not attached to the same rooms")
-                        break
-                if bad:
-                    break
-        except Undecided as ex:
-            rep.undecide("RT-ROOMS", f"{h}x{wd}: {ex}")
-            continue
-        except (TypeError, ValueError, IndexError, KeyError) as ex:
-            bad = f"board {h}x{wd}: malformed result ({type(ex).__name__}: {ex})"
-        if bad:
-            rep.finding("RT-ROOMS", SER, "Rooms", f"Rooms/ValuedRooms board {h}x{wd}", bad)
+    from concurrent.futures import ProcessPoolExecutor
+
+    boards = BOARDS + ([(3, 3), (1, 5), (4, 1)] if rep.tier == "thorough" else [])
+    jobs = [(repo.root, repo.overrides, h, wd, 250 if rep.tier != "thorough" else 600) for h, wd in boards]
+    with ProcessPoolExecutor(max_workers=8) as ex:
+        results = list(ex.map(_rooms_job, jobs))
+    for (_, _, h, wd, _), (st, msg, n) in zip(jobs, results):
+        if st == "undecided":
+            rep.undecide("RT-ROOMS", msg or "")
+        elif st == "bad":
+            rep.finding("RT-ROOMS", SER, "Rooms", f"Rooms/ValuedRooms board {h}x{wd}", msg or "")
         else:
-            rep.ok("RT-ROOMS", f"board {h}x{wd}: {len(parts)} connected partitions x 3 orderings round-trip (plain and valued)", points=n)
+            rep.ok("RT-ROOMS", f"board {h}x{wd}: {n // 3} connected partitions x 3 orderings round-trip (plain and valued)", points=n)
     # malformed rooms are rejected by serialize
     try:
         env = w.env(2, 2)
@@ -256,6 +212,55 @@ def check(repo: Repo, rep: Report) -> None:
                 rep.finding("RT-ROOMS", SER, "Rooms._serialize", f"Rooms {label}", f"{label} rooms {rs} on a 2x2 board are not rejected with ValueError ({st}: {r!r})")
     except Undecided as ex:
         rep.undecide("RT-ROOMS", f"malformed rooms: {ex}")
+
+
+def _rooms_job(args) -> Tuple[str, Optional[str], int]:
+    root, overrides, h, wd, limit = args
+    repo = Repo(root, overrides)
+    w = SerWorld(repo)
+    N = w.new
+    parts = connected_partitions(h, wd, limit)
+    bad = None
+    n = 0
+    try:
+        for rooms in parts:
+            orders = [rooms, [list(reversed(r)) for r in reversed(rooms)], [r for r in rooms[1:]] + [rooms[0]]]
+            for k, rs in enumerate(orders):
+                n += 1
+                env = w.env(h, wd)
+                comb = N("Rooms")
+                st, r = w.meth(comb, "serialize", env, [rs], 0)
+                if st != "ok" or r is None:
+                    return "bad", f"board {h}x{wd} rooms {rs}: serialize gives {st} {r!r}", n
+                text = r[1]
+                st, d = w.meth(comb, "deserialize", env, text + "~", 0)
+                if st != "ok" or d is None:
+                    return "bad", f"board {h}x{wd} rooms {rs} text {text!r}: deserialize gives {st} {d!r}", n
+                if d[0] != len(text) or canon_rooms(d[1][0]) != canon_rooms(rs):
+                    return "bad", f"board {h}x{wd} rooms {rs} text {text!r}: decoded {d[1][0]} consuming {d[0]}/{len(text)}", n
+                dec = d[1][0]
+                if [sorted(x) for x in dec] != [list(x) for x in dec] or sorted(dec, key=lambda x: x[0]) != dec:
+                    return "bad", f"board {h}x{wd}: decoded rooms {dec} are not in canonical (row-major first cell) order", n
+                vals = [(-1 if i % 3 == 2 else (i * 37) % 300) for i in range(len(rs))]
+                vc = N("ValuedRooms", N("OneOf", N("HexInt"), N("Spaces", -1, "g")))
+                st, r = w.meth(vc, "serialize", env, [(rs, vals)], 0)
+                if st != "ok" or r is None:
+                    return "bad", f"board {h}x{wd} valued rooms {rs} values {vals}: serialize gives {st} {r!r}", n
+                text = r[1]
+                st, d = w.meth(vc, "deserialize", env, text + "~", 0)
+                if st != "ok" or d is None:
+                    return "bad", f"board {h}x{wd} valued rooms {rs} text {text!r}: deserialize gives {st} {d!r}", n
+                drooms, dvals = d[1][0]
+                want = {frozenset(map(tuple, room)): v for room, v in zip(rs, vals)}
+                got = {frozenset(map(tuple, room)): v for room, v in zip(drooms, dvals)}
+                if d[0] != len(text) or got != want:
+                    return "bad", (f"board {h}x{wd}: rooms {rs} with values {vals} come back as {list(zip(drooms, dvals))} "
+                                   f"(text {text!r}, consumed {d[0]}/{len(text)}): values are not attached to the same rooms"), n
+    except Undecided as ex:
+        return "undecided", f"{h}x{wd}: {ex}", n
+    except (TypeError, ValueError, IndexError, KeyError) as ex:
+        return "bad", f"board {h}x{wd}: malformed result ({type(ex).__name__}: {ex})", n
+    return "ok", None, n
 
 
 def run(repo: Repo, rep: Report) -> None:
